@@ -48,7 +48,8 @@ type metricSchemaStore struct {
 
 	cache *expirable.LRU[metric.ID, *metric.Schema]
 
-	lock sync.RWMutex
+	flushVersion int64 // increased after each successful flush(under lock)
+	lock         sync.RWMutex
 }
 
 // NewMetricSchemaStore creates a MetricSchemaStore instance.
@@ -84,6 +85,7 @@ func (s *metricSchemaStore) GetSchema(id metric.ID) (schema *metric.Schema, err 
 
 // genFieldID generates field id if field not exist.
 func (s *metricSchemaStore) genFieldID(id metric.ID, f field.Meta, limits *models.Limits) (fID field.ID, err error) {
+	flushVersion := s.getFlushVersion()
 	schema, err := s.GetSchema(id)
 	if err != nil {
 		return 0, err
@@ -91,12 +93,11 @@ func (s *metricSchemaStore) genFieldID(id metric.ID, f field.Meta, limits *model
 	s.lock.Lock()
 	defer s.lock.Unlock()
 
-	if schema == nil {
-		// create new schema
-		schema = &metric.Schema{}
+	// resolve the schema which all writers share(double check under write lock)
+	schema, err = s.getOrCreateSchemaUnderLock(id, schema, flushVersion)
+	if err != nil {
+		return 0, err
 	}
-	// put into schema if schema not exist under mutable store
-	s.mutable.PutIfNotExist(uint32(id), schema)
 
 	fm, ok := schema.Fields.Find(f.Name)
 	if ok {
@@ -117,6 +118,7 @@ func (s *metricSchemaStore) genFieldID(id metric.ID, f field.Meta, limits *model
 func (s *metricSchemaStore) genTagKeyID(id metric.ID, tagKey []byte, limits *models.Limits,
 	createFn func() uint32,
 ) (tagKeyID tag.KeyID, err error) {
+	flushVersion := s.getFlushVersion()
 	schema, err := s.GetSchema(id)
 	if err != nil {
 		return 0, err
@@ -124,12 +126,11 @@ func (s *metricSchemaStore) genTagKeyID(id metric.ID, tagKey []byte, limits *mod
 	s.lock.Lock()
 	defer s.lock.Unlock()
 
-	if schema == nil {
-		// create new schema
-		schema = &metric.Schema{}
+	// resolve the schema which all writers share(double check under write lock)
+	schema, err = s.getOrCreateSchemaUnderLock(id, schema, flushVersion)
+	if err != nil {
+		return 0, err
 	}
-	// put into schema if schema not exist under mutable store
-	s.mutable.PutIfNotExist(uint32(id), schema)
 
 	tm, ok := schema.TagKeys.Find(strutil.ByteSlice2String(tagKey))
 	if ok {
@@ -146,6 +147,47 @@ func (s *metricSchemaStore) genTagKeyID(id metric.ID, tagKey []byte, limits *mod
 	}
 	schema.TagKeys = append(schema.TagKeys, tm)
 	return tm.ID, nil
+}
+
+// getFlushVersion returns current flush version.
+func (s *metricSchemaStore) getFlushVersion() int64 {
+	s.lock.RLock()
+	defer s.lock.RUnlock()
+
+	return s.flushVersion
+}
+
+// getOrCreateSchemaUnderLock returns the schema object of the metric which is stored in mutable store,
+// creates/registers it if not exist. The schema looked up before locking is only used
+// when no other goroutine registered/flushed a schema for the metric in the meantime.
+// NOTE: caller must hold the write lock.
+func (s *metricSchemaStore) getOrCreateSchemaUnderLock(id metric.ID,
+	lookupSchema *metric.Schema, lookupFlushVersion int64,
+) (*metric.Schema, error) {
+	key := uint32(id)
+	if schema, ok := s.mutable.Get(key); ok && schema != nil {
+		return schema, nil
+	}
+	schema := lookupSchema
+	if s.immutable != nil {
+		if immutableSchema, ok := s.immutable.Get(key); ok && immutableSchema != nil {
+			schema = immutableSchema
+		}
+	}
+	if schema == nil && s.flushVersion != lookupFlushVersion {
+		// flush completed after lookup, schema maybe moved from memory to kv store
+		var err error
+		schema, err = s.getSchemaFromKV(id)
+		if err != nil {
+			return nil, err
+		}
+	}
+	if schema == nil {
+		// create new schema
+		schema = &metric.Schema{}
+	}
+	s.mutable.Put(key, schema)
+	return schema, nil
 }
 
 // getSchemaFromKV gets schema from kv store.
@@ -241,6 +283,7 @@ func (s *metricSchemaStore) Flush() error {
 		return nil
 	})
 	s.immutable = nil
+	s.flushVersion++
 	s.cache.Purge()
 	s.lock.Unlock()
 	return nil
